@@ -1,6 +1,15 @@
 ------------------------------ MODULE Codec ------------------------------
 (* Decoding of the integer tuples used in the ndjson traces (harness/enc.go). *)
 EXTENDS MARSCore
+\* The product y * x reduced modulo M without leaving 32 bits (M < 2^30): shift-and-add over the binary digits of x.  Installed over MARSCore!MulMod
+\* by the configuration files (CONSTANT MulMod <- MulModTLC); equal to it on every argument (TLC checks the assumption MulAgree below at every start).
+RECURSIVE MulModTLC(_, _, _)
+MulModTLC(y, x, M) ==
+  IF x = 0 THEN 0
+  ELSE LET h == MulModTLC(y, x \div 2, M)
+           d == (h + h) % M
+       IN IF x % 2 = 1 THEN (d + (y % M)) % M ELSE d
+ASSUME MulAgree == \A M \in 1..24 : \A y, x \in 0..(M + 3) : MulModTLC(y, x, M) = (y * x) % M
 OpN  == <<"DAT","MOV","ADD","SUB","MUL","DIV","MOD","CMP","SEQ","SNE","SLT","JMP","JMZ","JMN","DJN","SPL","NOP">>
 ModN == <<"F","A","B","AB","BA","X","I">>
 AmN  == <<"$","#","*","@","{","<","}",">">>
